@@ -156,9 +156,18 @@ def run(c, chk):
                     break
                 fe = ent['filter'][0]
                 verdict = None
+                odd = None
                 for cn, t, _ in p.assume:
                     if cn[0] == 'icmp' and fe.res in (cn[2], cn[3]) and sym.C0 in (cn[2], cn[3]):
                         verdict = ((cn[1] == 'ne') == t)
+                    elif cn[0] == 'icmp' and sym.mentions(cn, lambda v: v == fe.res):
+                        odd = cn          # the filter's answer is "zero / not zero": any other test of it reads it wrongly
+                if odd is not None or verdict is None:
+                    good = False
+                    chk.fail('R19.1', 'filter-verdict-test', c.where(fe.ins), 'the answer of the print filter is not read as "zero: print, anything else: leave out"%s: '
+                             'a filter that answers with a flag bit, a negative value or a comparison result no longer hides its options'
+                             % (' (it is tested by %s)' % sym.render(odd) if odd is not None else ' (it is not tested at all)'))
+                    break
                 if verdict is True and ent['print']:
                     good = False
                     chk.fail('R19.1', 'filtered-printed', c.where(ent['print'][0].ins), 'an option the filter rejected is printed anyway')
@@ -247,6 +256,28 @@ def run(c, chk):
                 continue
             if e.name == 'cfg_print_pff_indent':
                 nested += 1
+                # "once per section instance": the section printed is an instance that exists - its index was shown to be
+                # below the number of instances, or the instance itself was tested against NULL
+                secv = e.args[0]
+                gs = next((x for x in ev[:i] if x.kind == 'call' and x.name == 'cfg_opt_getnsec' and x.res == secv), None)
+                exists = False
+                for cn, t, _ in p.assume[:e.seq]:
+                    na = fp_is_null(cn, t)
+                    if na and na[0] == secv and na[1] is False:
+                        exists = True
+                    if gs is not None and cn[0] == 'icmp' and cn[1] in ('ult', 'uge', 'ugt', 'ule', 'slt', 'sge'):
+                        a_, b_ = cn[2], cn[3]
+                        lt = (cn[1] in ('ult', 'slt') and t and sym.norm(a_) == sym.norm(gs.args[1])) or (cn[1] in ('uge', 'sge') and not t and sym.norm(a_) == sym.norm(gs.args[1])) \
+                            or (cn[1] == 'ugt' and t and sym.norm(b_) == sym.norm(gs.args[1])) or (cn[1] == 'ule' and not t and sym.norm(b_) == sym.norm(gs.args[1]))
+                        other = b_ if sym.norm(a_) == sym.norm(gs.args[1]) else a_
+                        if lt and (other[0] == 'call' and other[1] == 'cfg_opt_size' or (other[0] == 'ld' and other[1][0] == 'fld' and other[1][3] == 'nvalues')):
+                            exists = True
+                if gs is not None and not exists:
+                    ok3 = False
+                    chk.fail('R19.3', 'instance-exists', c.where(e.ins), 'a section body is printed for instance %s of the option without that index having been shown to be below the number of '
+                             'instances (and without a NULL test of the instance): an option that holds no section - a CFGF_NODEFAULT section never set, a section that was removed - '
+                             'is printed as if it had one' % sym.render(gs.args[1]))
+                    break
                 if e.args[2] != ('p', 'pff') or e.args[3] != ('bin', 'add', ('p', 'indent'), ('c', 1)) or e.args[1] != ('p', 'fp'):
                     ok3 = False
                     chk.fail('R19.3', 'nested-args', c.where(e.ins), 'a section body is printed with (filter %s, indent %s) instead of (the effective filter, indent+1)'
@@ -423,6 +454,11 @@ def indent_writer(c, chk):
     elif n:
         chk.ok('R19.7', 'cfg_indent: %d paths' % n, 'two blanks per loop iteration, one iteration per level', sample=True)
     chk.floor('R19.7 paths of the indentation writer', n, 2)
+
+
+def fp_is_null(cn, t):
+    from .. import failpaths as _fp
+    return _fp.is_null_assumption(cn, t)
 
 
 def builtin_formatter(c, chk):
